@@ -9,6 +9,7 @@ CONSTANTS
   MaxBatch = 2
   MaxEpoch = 2
   MaxHit = 1
+  MaxRecCrash = 0
   CapSet = {2}
   RetSet = {0, 2}
   CompactSet = {FALSE, TRUE}
